@@ -324,7 +324,10 @@ claim("C16",
   "literal_enums is additionally compared on a document with string/int enums in every position (model property required/optional/nullable/inline, array item, nested array, union member, additionalProperties, parameters in "
   "query/path/header/cookie required and optional and as array items, request/response bodies as the body itself / array items / inside models / map values / form fields) and on gen/ops.py's parameter atlas, alone and in the "
   "context of five other options: the set of api modules, the diagnostics and the parsed operations (parameters by location, bodies, statuses) must be identical and every call must put the same request on the wire and decode "
-  "the same result. Naming overrides use mixed-case / camelCase / digit / `.` / ` ` / `__` strings; a probe generates into the default location (cwd) for project alone / package alone / both in every flavour and compares "
+  "the same result; that document also has a multipart/form-data body model with string and integer enums (required, optional, inline, $ref) as direct fields, array items and union members, executed with full and sparse "
+  "instances - multipart requests are compared part by part after replacing httpx's random boundary by a fixed token. Differential check of the enum wire macros: transform / transform_multipart / transform_header of "
+  "enum_property.py.jinja and literal_enum_property.py.jinja are rendered by the real Jinja environment and executed on every member (str and int, required / optional, present / UNSET; the Enum kind on members of the class "
+  "rendered from str_enum / int_enum.py.jinja): equal outputs required. Naming overrides use mixed-case / camelCase / digit / `.` / ` ` / `__` strings; a probe generates into the default location (cwd) for project alone / package alone / both in every flavour and compares "
   "directory names, pyproject/setup/README entries and the importable name with the documented rule computed without the implementation. docstrings_on_attributes is additionally compared (alone and in the context of five "
   "other options) on a document whose property / model / enum / parameter / operation / response descriptions carry backslashes forming invalid, unicode and hex escapes, a trailing backslash, quotes, braces, newlines and "
   "non-ASCII text: only model modules and client.py may differ, and only in docstring statements (by AST, so both files must parse), both packages must import every module alike (an import_all operation now opens every wire "
@@ -335,7 +338,7 @@ claim("C16",
   "NOT a theorem: that an option a function does not read cannot influence it (Python semantics; values the parser stores and passes on are not tracked by the syntactic frame) - trusted and probed by the metamorphic search. "
   "Trusted: Coq kernel+vm_compute; gen_frame.py; the documented site sets are a hand reading of README.md / CLI help (docstrings_on_attributes is also allowed in client.py.jinja, where the generator applies the same convention; "
   "inline children of an overridden class are renamed with it because their names are minted from the parent's class name); undoing a renaming is whole-word token replacement and files are then compared as multisets of lines "
-  "with Union[...] members sorted (imports and response unions are sorted by name); final sigma and lone surrogates are excluded from the name / media type inputs; multipart bodies are not executed. Open finding reproduced: "
+  "with Union[...] members sorted (imports and response unions are sorted by name); final sigma and lone surrogates are excluded from the name / media type inputs. Open finding reproduced: "
   "override_module_collision (a class_overrides module_name equal to another class's module is not diagnosed; two classes share one file) - classified by the Coq guard rename_injective_on.",
   "Coq proof (table reflection for the frame; induction for the tag selection; case analysis for the option lemmas) + in-Coq differential correspondence + metamorphic tree/wire comparison", "4/C16")
 
@@ -355,6 +358,8 @@ claim("C18",
   "targeted search that places the disagreeing spellings everywhere and reports the concrete capture, e.g. `_body` + request body -> duplicate argument). "
   "Twin placements: every candidate N with a twin T of the same python name before de-confliction (From/from, Class/class, HTTPStatus/http_status, UNSET/unset) is generated as raw-name pair and as sibling properties of a model refined "
   "through allOf ({untyped->string, string->date, number->integer, string->enum} x both orders x N or T redefined x inline / $ref parent), next to the twin control ZqNeutral/zq_neutral: module compiles, imports, round trip equals the control's modulo names. "
+  "Cross-location twins: N in one location and its twin (a different string with the same python name: UNSET/unset, PARAMS/params, HTTPStatus/http_status) in ANOTHER location of the same operation (all 12 ordered location pairs x with/without "
+  "body in the thorough tier), compared with ZqNeutral/zq_neutral: the location suffix, never the raw spelling, must tell them apart. "
   "Search: EXHAUSTIVE over the finite regenerated candidate set (translate/gen_names.py: every identifier - names, arguments, attributes, keyword-argument names, imports - of every module of a probe client generated by the tree "
   "under verification, per scope, ast cross-checked with symtable; all keywords, soft keywords, builtins, case variants; ~450 names) x {model property required/optional of 4 kinds, typed/untyped additionalProperties, multipart body "
   "model property, parameter in path/query/header/cookie without and with a JSON body, raw-name pair (the only way an upper-case identifier becomes a python name)}. Every (candidate, placement) class / operation is generated by the real "
